@@ -10,7 +10,7 @@ _HYPER_OK = ["iteration_limit > 0", "num_clusters >= 2 and num_clusters <= 65536
              "sparsity_weight >= 0", "label_switching_cost >= 0", "forall(lambda t, x_e: spd_compressed_task(t, x_e))"]
 
 _F = "((window_size - 1) // 2)"
-contract(FE + 'ticc_labels', props=['C04', 'C19', 'C20', 'C07'],
+contract(FE + 'ticc_labels', props=['C04', 'C19', 'C20', 'C07', 'C18'],
          params=dict(data_series='arr2[real]', **_HYPER), returns='obj:SingleDataSeriesResult',
          requires=_HYPER_OK + ["window_size <= data_series.shape[0]", "data_series.shape[1] >= 1",
                                "data_series.shape[1] * window_size < 67108864",
@@ -70,7 +70,7 @@ contract(FE + '_split_combined_result', props=['C04', 'C10', 'C06', 'C07'],
                              "i < data_series[s].shape[0], padded_label_sets[s][i] == -1))"],
                         modifies=['padded_label_sets'])})
 
-contract(FE + 'ticc_joint_labels', props=['C04', 'C07', 'C19', 'C20'],
+contract(FE + 'ticc_joint_labels', props=['C04', 'C07', 'C19', 'C20', 'C18'],
          params=dict(data_series='list[arr2[real]]', **_HYPER), returns='obj:MultipleDataSeriesResult',
          requires=_HYPER_OK + ["len(data_series) >= 1",
                                "forall(0, len(data_series), lambda s: not isnone(data_series[s]) and window_size <= data_series[s].shape[0] and "
